@@ -99,12 +99,25 @@ func applyJSON(doc document.Document, entry interface{}) (document.Document, err
 		return nil, err
 	}
 
-	docBytes, err = jsonPatches.Apply(docBytes)
+	docBytes, err = applyJSONPatches(jsonPatches, docBytes)
 	if err != nil {
 		return nil, err
 	}
 
 	return document.FromBytes(docBytes)
+}
+
+// applyJSONPatches applies the patches and turns a panic of the JSON patch engine (e.g. array index "-1",
+// "test" without a value) into an error so that a hostile patch cannot crash resolution.
+func applyJSONPatches(jsonPatches jsonpatch.Patch, docBytes []byte) (result []byte, err error) {
+	defer func() {
+		if r := recover(); r != nil {
+			result = nil
+			err = fmt.Errorf("failed to apply JSON patch: %v", r)
+		}
+	}()
+
+	return jsonPatches.Apply(docBytes)
 }
 
 func applyRecover(replaceDoc interface{}) (document.Document, error) {
